@@ -799,7 +799,7 @@ def run(ctx):
         for op, c, ps in jobs_of(cse, opts):
             jobs.append((len(jobs) + 1, op, c, ps))
     del cases
-    cen, seen, probe = {}, set(), []
+    cen, seen, probe = {}, set(), {}
 
     def batch(jobs, what):
         """replay + judge in chunks (a record carries every projected observation of every call: keep memory bounded)"""
@@ -816,9 +816,7 @@ def run(ctx):
                     seen.add(key)
                     ctx.sample({"op": r["op"], "case": r["c"], "params": r["runs"][-1]["p"], "observed": r["runs"][-1]["o"]}, cap=12)
             rej = judge(ctx, recs, what if len(jobs) <= chunk else "%s [%d..%d]" % (what, lo + 1, lo + len(recs)))
-            if not probe:
-                # self-test material: accepted records only (a broken tree must not break the self-test)
-                probe.extend(r for r in recs[:: max(1, len(recs) // 6000)] if r["id"] not in rej)
+            pick_probes(probe, recs, rej)
         return len(jobs)
 
     nrec = batch(jobs, "judge replayed cases (StatsTrace)")
@@ -875,11 +873,12 @@ def run(ctx):
     ctx.trusted_base = ctx.trusted_base + ["fractions.Fraction arithmetic and Fraction.limit_denominator in the float->lattice projection"]
 
 
-def selftest(ctx, recs):
-    saved = ctx.traces
-    picks = {}
+def pick_probes(picks, recs, rejected):
+    """self-test material: the first ACCEPTED record of each kind (a broken tree must not break the self-test)"""
+    if len(picks) == len(EXEC) + 2:
+        return
     for r in recs:
-        if not all(u["o"]["err"] == "none" for u in r["runs"]):
+        if r["id"] in rejected or r["problems"] or not all(u["o"]["err"] == "none" for u in r["runs"]):
             continue
         last = r["runs"][-1]["o"]
         keys = [r["op"]]
@@ -892,6 +891,10 @@ def selftest(ctx, recs):
             keys.append("wmom_interval")
         for key in keys:
             picks.setdefault(key, r)
+
+
+def selftest(ctx, picks):
+    saved = ctx.traces
 
     def bump(o):
         if o["k"] == "ivl":           # shift the recorded interval by 3 lattice units
